@@ -109,14 +109,14 @@ func TestC16_GeneratedVersions(t *testing.T) {
 		va, vb, edits, counts := schema.Evolve(s, base, "va", "vb")
 		ws, err := NewWorkspace("vmod")
 		if err != nil {
-			rt.Fatalf("infrastructure: %v", err)
+			ev.InfraSkip(rt, c16, "%v", err)
 		}
 		defer ws.Remove()
 		kase := c16case{VersionA: setSources(va), VersionB: setSources(vb), Edits: edits}
 		for _, set := range []*schema.Set{va, vb} {
 			key, msg, out := buildAndEmit(ws, set, schema.Style{})
 			if key == "infra" {
-				rt.Fatalf("infrastructure: %s", msg)
+				ev.InfraSkip(rt, c16, "%s", msg)
 			}
 			if key != "" {
 				kase.Output = clipOut(out)
@@ -127,12 +127,12 @@ func TestC16_GeneratedVersions(t *testing.T) {
 		}
 		os.MkdirAll(filepath.Join(ws.Dir, "vx"), 0o755)
 		if err := os.WriteFile(filepath.Join(ws.Dir, "vx", "cross_test.go"), []byte(emitCross(va, vb)), 0o644); err != nil {
-			rt.Fatalf("infrastructure: %v", err)
+			ev.InfraSkip(rt, c16, "%v", err)
 		}
 		seed := rapid.IntRange(1, 1<<30).Draw(rt, "driverseed")
 		o, ok, timedOut := ws.GoTest(10*time.Minute, []string{"-v", "-run", "TestVerifC16", "-rapid.checks=80", "-rapid.seed=" + strconv.Itoa(seed), "-rapid.nofailfile"}, "vx")
 		if timedOut {
-			rt.Fatalf("infrastructure: cross-version driver did not finish")
+			ev.InfraSkip(rt, c16, "cross-version driver did not finish")
 		}
 		if m := c16viol.FindStringSubmatch(o); m != nil {
 			kase.Output = clipOut(m[1])
